@@ -104,6 +104,8 @@ def string_sanitizer_bodies():
         ("trimend", "x.trim_end().to_string()", False),
         ("dup", "format!(\"{x}{x}\")", False),
         ("ident", "x", False),
+        # a body with an early `return`: spelled as a closure it must still only return from the closure
+        ("early_return", "{ if x.starts_with('A') { return x; } x.replace('x', \" \") }", False),
     ]
 
 
